@@ -74,6 +74,7 @@ class FamilyResult:
         self.model_error = None
         self.viol = {}            # trace index -> list of (prop, line, rule, msg)
         self.corpus_n = 0
+        self.exhaustive = None    # summary of the bounded-exhaustive stream
         self.linecov = {}         # library file -> statements / executed / percent (quick tier)
 
 def run_family(family, tier, seed):
@@ -124,6 +125,21 @@ def run_family(family, tier, seed):
     for i, (h, ops, il) in enumerate(r.traces):
         v = judge_store_trace(h, ops, il)
         if v: r.viol[i] = v
+    # bounded-exhaustive stream: every sequence of abstract moves up to a fixed length for small capacities; compared and
+    # judged inside the workers, only the failing traces come back
+    if os.environ.get("VERIF_NO_EXHAUSTIVE") != "1":
+        import exhaustive_family
+        te = time.time()
+        ex = exhaustive_family.run_exhaustive(family, tier)
+        if ex is not None:
+            r.exhaustive = dict(maximal_sequences=ex["sequences"], divergences=ex["n_divergences"],
+                                traces_with_judge_hits_all_props=ex["n_viol"], configurations=ex["configs"],
+                                wall_s=round(time.time() - te, 2))
+            if ex["error"] and r.model_error is None: r.model_error = ex["error"]
+            for (h, ops, il, ml, d) in ex["divergences"]:
+                r.traces.append((h, ops, il)); r.model.append(ml); r.div.append((len(r.traces) - 1, d))
+            for (h, ops, il, ml, v) in ex["viol"]:
+                r.traces.append((h, ops, il)); r.model.append(ml); r.viol[len(r.traces) - 1] = v
     return r
 
 def judge_fails(pid, header, ops, rule=None):
